@@ -901,7 +901,7 @@ func checkListCore(r *Reporter, p *Prog) {
 		insFn, _ := info.Defs[ins.Name].(*types.Func)
 		nIns := 0
 		for _, fd := range p.AllFuncDecls("ds") {
-			if fd.Body == nil || fd == ins || recvTypeName(fd) != "list" || strings.HasSuffix(p.Fset.Position(fd.Pos()).Filename, "_test.go") {
+			if fd.Body == nil || fd == ins || strings.HasSuffix(p.Fset.Position(fd.Pos()).Filename, "_test.go") {
 				continue
 			}
 			direct := false
@@ -925,9 +925,20 @@ func checkListCore(r *Reporter, p *Prog) {
 				if !found {
 					continue
 				}
+				// the element is the first argument of element type (a former method takes the list first)
+				var elemArg ast.Expr
+				for _, a := range c.Args {
+					if shortTypeName(typeName(info.TypeOf(a))) == "listElement" {
+						elemArg = a
+						break
+					}
+				}
+				if elemArg == nil {
+					continue
+				}
 				nIns++
 				key := funcKey("ds", fd)
-				if why := notFreshlyAllocated(f, info, c.Args[0], cpt); why != "" {
+				if why := notFreshlyAllocated(f, info, elemArg, cpt); why != "" {
 					r.Fail("handle/fresh-element", key, p.posStr(c.Pos()), "the element linked into the list must be allocated by this insertion: "+why+" - the handle of its previous life is live again and acts on the new occupant")
 				} else {
 					r.Pass("handle/fresh-element", key, p.posStr(c.Pos()), "the inserted element is a fresh allocation on every path")
